@@ -35,6 +35,17 @@ def generate(rng, tier):
         sc["ops"].insert(at, {"op": "tamper", "kind": kind, "r": rng.getrandbits(24)})
         sc["ops"].insert(at + 1, explore.gen_readonly(rng, {"tree": sc["world"]["tree"], "nested": []}))
         sc["ops"].insert(at + 2, scen.cmd("flatten", "@R", "@S/out2"))
+    if rng.random() < 0.2:
+        # flatten invoked with relative paths: the destination is relative to the working directory
+        rootname = sc["world"]["rootname"]
+        k = rng.randrange(3)
+        if k == 0:
+            op = dict(scen.cmd("flatten", "m/" + rootname, "relout"), cwd="@S/w")
+        elif k == 1:
+            op = dict(scen.cmd("flatten", rootname + "/", "out_t"), cwd="@M")
+        else:
+            op = dict(scen.cmd("flatten", "./" + rootname, "../relout2"), cwd="@M")
+        sc["ops"].append(op)
     if rng.random() < 0.15 and len(sc["ops"]) > 2:
         # an interrupted create somewhere in the middle leaves temporary files behind; later read-only commands
         # must leave them alone as well
@@ -91,7 +102,10 @@ def monitor(ctx, st):
         return
     base_rel = os.path.relpath(w.base, w.sandbox)  # 'w'
     if name == "flatten":
-        dest = os.path.relpath(w.expand(op["argv"][2]), w.sandbox)
+        dest_abs = w.expand(op["argv"][2])
+        if not os.path.isabs(dest_abs):
+            dest_abs = os.path.normpath(os.path.join(w.expand(op["cwd"]) if op.get("cwd") else w.default_cwd(), dest_abs))
+        dest = os.path.relpath(dest_abs, w.sandbox)
         ctx.nontrivial = ctx.nontrivial or has_hist
         for rel in added + removed + changed:
             inside = rel == dest or rel.startswith(dest + os.sep)
